@@ -193,6 +193,20 @@ def run_case(case, ctx):
                 else:
                     ctx.fail("missing-prefix-derivation", parser=who, missing=repr(m),
                              have=len(got), want=len(want), sentence_prefix_ends=ends, **info)
+            elif len(got_list) != len(got) and case.get("pin"):
+                # pinned corpus of the D2 class in prefix mode: the recorded (len, distinct) is required
+                # exactly, so that another cause of double packing is still reported
+                from ..core import stable_hash
+                key = stable_hash([case["g"], tb, who, text])
+                now = [len(got_list), len(got)]
+                rec = ctx.__dict__.get("_recording")
+                if rec is not None:
+                    rec[key] = now
+                elif d2_pins().get(key) != now:
+                    ctx.fail("behaviour-differs-from-recorded-finding", parser=who, recorded=d2_pins().get(key),
+                             now=now, **info)
+                else:
+                    ctx.label("recorded D2 manifestation confirmed")
             elif len(got_list) != len(got):
                 if T.duplicate_alternatives(forest.result):
                     ctx.known("D2", "derivation-packed-twice", parser=who, **info)
@@ -252,6 +266,32 @@ def strat_l0(tier):
     return _case(gen.cfgs(max_nts=3, max_alts=3, max_rhs=3))
 
 
+_D2P = None
+
+
+def d2_pins():
+    global _D2P
+    if _D2P is None:
+        import json
+        import os
+        from .. import VERIF_DIR
+        path = os.path.join(VERIF_DIR, "regress", "C17", "D2-prefix-pins.json")
+        _D2P = json.load(open(path))["pins"] if os.path.exists(path) else {}
+    return _D2P
+
+
+def enum_d2(tier):
+    """deterministic corpus for the D2 class in prefix mode"""
+    def it():
+        for name, g in gen.CLASSICS.items():
+            for table in ("LALR", "SLR"):
+                yield {"g": g, "table": table, "fill": [" "], "max_len": 5 if len(g["terms"]) <= 2 else 4, "pin": True}
+        for i, g in enumerate(gen.tiny_grammars(1)):
+            if i % 7 == 3:
+                yield {"g": g, "table": "LALR" if i % 2 else "SLR", "fill": [" "], "max_len": 5, "pin": True}
+    return it()
+
+
 def enum_classics(tier):
     def it():
         for name, g in gen.CLASSICS.items():
@@ -284,6 +324,7 @@ SUBCHECKS = [
     SubCheck("classics", run_case, enumerate=enum_classics),
     SubCheck("tiny-exhaustive", run_case, enumerate=enum_tiny),
     SubCheck("epsilon-family", run_case, enumerate=enum_epsilon),
+    SubCheck("d2-prefix-pinned-corpus", run_case, enumerate=enum_d2),
     SubCheck("random-L0", run_case, strategy=strat_l0, examples={"quick": 1600, "thorough": 24000}),
     SubCheck("random-L1-overlapping", run_case, strategy=strat_l1, examples={"quick": 640, "thorough": 8000}),
 ]
